@@ -16,7 +16,8 @@ TECHNIQUE = "differential bounded symbolic execution (symx + z3) of the real slu
 LEVEL_TEXT = ("For every sequence of up to K heading titles of bounded length over an alphabet with upper/lower case, digits, '-', '_', space, punctuation, a non-ASCII letter and a CJK "
               "character, z3 shows on every path that the slug assigned to each heading by the real compute_unique_slug/default_slugify equals the one the real "
               "mdit_py_plugins.anchors code (used by myst-anchors) assigns for the same title sequence, that slugs are pairwise distinct, and that default_slugify equals the "
-              "documented per-character rule. The depth limit and the custom-slug-function failure path are checked on the real renderer method with symbolic level/depth.")
+              "documented per-character rule. For solver-enumerated documents of up to K headings and every anchor depth, the anchors assigned by the real pipeline equal those printed by the real "
+              "myst-anchors command (cli.print_anchors, instrumented) and the documented suffix order; a custom slug function raising any of 5 exception classes yields only heading_slug warnings.")
 LEVEL_NOTE = ("Trusted: symx (string, regex, case-mapping models; self-tested each run), z3, mdit_py_plugins' anchors code as the reference for uniqueness. Titles have no leading/trailing "
               "white space in the differential against the plugin (the plugin strips, GitHub and MyST do not; see known finding).")
 BUDGET_S = {"quick": 120, "thorough": 900}
@@ -153,6 +154,113 @@ def make_sequence(eng, k, n, alphabet):
     return body
 
 
+# ------------------------------------------------------------------- documents: rendering vs the myst-anchors command, all depths
+
+DOC_TITLES = ["a", "a-1", "A", "b c"]
+EXC_CLASSES = [ValueError, KeyError, RuntimeError, ZeroDivisionError, AttributeError]
+
+
+def _failing_slug(title):
+    raise EXC_CLASSES[_failing_slug.which]("cannot slug %r" % (title,))
+
+
+_failing_slug.which = 0
+
+
+def run_doc(levels, titles, depth, custom, real=False):
+    """Returns (rendered slugs in document order, slugs printed by myst-anchors, warning text, n sections)."""
+    import io, os, re, tempfile
+    from docutils import nodes
+    from harness import common_render as CR
+
+    text = "".join("%s %s\n\npara\n\n" % ("#" * l, t) for l, t in zip(levels, titles))
+    over = {"myst_heading_anchors": depth, "doctitle_xform": False}
+    if custom is not None:
+        _failing_slug.which = custom
+        over["myst_heading_slug_func"] = _failing_slug
+    doc, warn = CR.publish(text, over, real=real)
+    rendered = [sec["slug"] for sec in doc.findall(nodes.section) if "slug" in sec]
+    nsec = len(list(doc.findall(nodes.section)))
+    if real:
+        import myst_parser.cli as cli
+    else:
+        cli = CLI["myst_parser.cli"]
+    with tempfile.TemporaryDirectory(prefix="symx_c10_") as d:
+        src, out = os.path.join(d, "in.md"), os.path.join(d, "out.html")
+        open(src, "w", encoding="utf8").write(text)
+        cli.print_anchors([src, "-o", out, "-l", str(depth)])
+        import gc
+
+        gc.collect()  # argparse.FileType handles are closed by the collector
+        printed = re.findall(r'<h\d id="([^"]*)"', open(out, encoding="utf8").read())
+    return rendered, printed, warn, nsec
+
+
+CLI = {}
+
+
+def check_doc(levels, titles, depth, custom, res):
+    rendered, printed, warn, nsec = res
+    if nsec != len(levels):
+        return ("heading-lost", "%d sections for %d headings" % (nsec, len(levels)))
+    within = [(l, t) for l, t in zip(levels, titles) if l <= depth]
+    if custom is not None:
+        if rendered:
+            return ("failing-slug-func-anchors", "anchors %r although the slug function raises" % (rendered,))
+        if warn.count("[myst.heading_slug]") != len(within):
+            return ("failing-slug-func-warnings", "%d heading_slug warnings for %d headings within depth" % (warn.count("[myst.heading_slug]"), len(within)))
+        return None
+    if len(rendered) != len(within):
+        return ("depth-limit", "depth %d: %d anchors for %d headings within the depth (levels %r)" % (depth, len(rendered), len(within), levels))
+    if rendered != printed:
+        return ("render-vs-myst-anchors", "levels %r titles %r depth %d: rendering assigns %r, myst-anchors prints %r" % (levels, titles, depth, rendered, printed))
+    # documented rule: base slug, then -1, -2 ... in order of appearance
+    seen = set()
+    for (l, t), got in zip(within, rendered):
+        base_slug = t.lower().replace(" ", "-")
+        want, i = base_slug, 1
+        while want in seen:
+            want = "%s-%d" % (base_slug, i)
+            i += 1
+        seen.add(want)
+        if got != want:
+            return ("unique-suffix-order", "levels %r titles %r depth %d: heading %r gets %r, expected %r" % (levels, titles, depth, t, got, want))
+    return None
+
+
+def make_doc(eng, k, depths, with_custom):
+    from harness import common_render as CR
+
+    CR.setup_pipeline()
+    if not CLI:
+        CLI.update(load_instrumented(["myst_parser.cli"]))
+    c = CR.Choice(eng)
+    state = {}
+    eng.witness_fn = lambda m: dict(state)
+
+    def body():
+        c.reset()
+        levels = [1 + c.choose(3) for _ in range(k)]
+        titles = [c.pick(DOC_TITLES) for _ in range(k)]
+        depth = c.pick(depths)
+        custom = (c.choose(len(EXC_CLASSES) + 1) - 1) if with_custom else -1
+        custom = None if custom < 0 else custom
+        state.update(doc=dict(levels=levels, titles=titles, depth=depth, custom=custom))
+        try:
+            res = run_doc(levels, titles, depth, custom)
+        except Exception as exc:  # noqa
+            eng.fail("document-raises", "%s: %s (levels %r titles %r depth %r custom %r)" % (type(exc).__name__, exc, levels, titles, depth, custom))
+        err = check_doc(levels, titles, depth, custom, res)
+        if err:
+            eng.fail(*err)
+        eng.passed(4)
+        if len(set(t.lower() for t in titles)) < len(titles) or custom is not None:
+            eng.note("slug_nontrivial")
+        return "ok"
+
+    return body
+
+
 class ListSet:
     """A set for symbolic strings that never hashes: membership = Or of equalities (what `in` means)."""
 
@@ -183,6 +291,11 @@ def families(tier, seed):
     for k, n in ([(2, 2), (3, 1), (4, 1)] if q else [(3, 2), (3, 3), (4, 2), (5, 1), (5, 2), (6, 1)]):
         F.append(Family("sequence/K%d-N%d" % (k, n), make_sequence, "all sequences of %d titles of %d chars over 'aA1- ' (collisions with suffixed forms reachable), text/code_inline split symbolic" % (k, n),
                         args=dict(k=k, n=n, alphabet="aA1- "), nontrivial="slug_nontrivial", required=((k, n) in ((2, 2), (3, 1), (3, 2), (4, 1), (3, 3), (4, 2), (5, 1))), max_forks=30000))
+    for k in ([2, 3] if q else [3, 4]):
+        F.append(Family("document/K%d" % k, make_doc, "%d headings (level 1-3, title from %r) x heading_anchors depth in %r: rendered anchors vs the real myst-anchors command (-l depth) vs the documented suffix rule" % (
+            k, DOC_TITLES, [0, 1, 2, 3, 7]), args=dict(k=k, depths=[0, 1, 2, 3, 7], with_custom=False), nontrivial="slug_nontrivial", max_forks=200000, required=(k <= 3)))
+    F.append(Family("document/failing-slug-func", make_doc, "2 headings x depth x a custom slug function raising one of %r: only [myst.heading_slug] warnings" % ([e.__name__ for e in EXC_CLASSES],),
+                    args=dict(k=2, depths=[1, 2, 7], with_custom=True), nontrivial="slug_nontrivial", max_forks=200000))
     return F
 
 
@@ -193,6 +306,14 @@ def replay(label, witness):
     import myst_parser.mdit_to_docutils.base as real
     from mdit_py_plugins.anchors.index import slugify, unique_slug
 
+    if "doc" in witness:
+        w = witness["doc"]
+        try:
+            res = run_doc(w["levels"], w["titles"], w["depth"], w["custom"], real=True)
+        except Exception as e:  # noqa
+            return ("C10/exception:%s" % type(e).__name__, "%r on %r" % (e, w))
+        err = check_doc(w["levels"], w["titles"], w["depth"], w["custom"], res)
+        return ("C10/%s" % err[0], err[1]) if err else None
     titles = witness["titles"]
     pset = set()
     seen = {}
